@@ -7,6 +7,8 @@ cd /verif || exit 9
 [ $# -gt 0 ] && SEEDS="$*" || SEEDS=$(ls seeded)
 one() {
   s="$1"; pid=$(echo "$s" | cut -c1-3); w=/tmp/sw-$s; out=/tmp/swout-$s
+  # a seed whose meta.json names another property's check as the one that reports it ("caught_by") runs against that check
+  cb=$(sed -n 's/.*"caught_by": *"\(C[0-9][0-9]\)".*/\1/p' seeded/$s/meta.json | head -1); [ -n "$cb" ] && pid="$cb"
   rm -rf "$w" "$out"; mkdir -p "$w" "$out"
   git -C /repo archive HEAD | tar -x -C "$w"
   if ! (cd "$w" && git apply /verif/seeded/$s/patch.diff 2>/dev/null || patch -s -p1 -d "$w" < /verif/seeded/$s/patch.diff); then echo "$s patch-does-not-apply"; rm -rf "$w" "$out"; return; fi
